@@ -41,7 +41,7 @@ def main():
     for pid in ids:
         d = f'{V}/seeded/{pid}'
         patch = f'{d}/patch.diff'
-        meta = {'property': pid.split('-')[0], 'id': pid}
+        meta = {'property': pid[:3], 'id': pid}
         if os.path.exists(f'{d}/verify.json'):
             meta['verified_in_scratch_worktree'] = json.load(open(f'{d}/verify.json'))
         if os.path.exists(f'{d}/meta.json'):
